@@ -30,7 +30,7 @@ Definition pcmp (p1 p2 : prio) : comparison :=
   end.
 
 (* error classes of the harness (harness/src/eval.rs classify_eval) that this fragment can reach *)
-Inductive err : Type := UnboundId | FieldMissing | MissingDef | NonMergeable.
+Inductive err : Type := UnboundId | FieldMissing | MissingDef | NonMergeable | Blame.
 
 (* [OutOfFuel]: the fuel of the evaluators ran out (the real evaluator reports an infinite
    recursion through its black-holing); [Panic]: the Rust code would panic (a revertible thunk
@@ -93,11 +93,38 @@ Fixpoint vars (t : tm) : list N :=
   | IfLe a b t e => vars a ++ vars b ++ vars t ++ vars e
   end.
 
+(* contracts that depend on fields: [x | std.contract.from_predicate (fun v => v >= e)] and
+   [... (fun v => v != e)] with [e] an expression over the sibling fields *)
+Inductive ckind : Type := CGe | CNe.
+Definition ctr : Type := (ckind * tm)%type.
+
+Definition check_ctr (k : ckind) (v z : Z) : bool :=
+  match k with
+  | CGe => (z <=? v)%Z
+  | CNe => negb (v =? z)%Z
+  end.
+
+(* RuntimeContract::apply_all: the pending contracts of a field are applied one after the other to
+   its value; the value is evaluated first, then the bound of the first contract, and so on; the
+   first failure wins *)
+Fixpoint apply_ctrs (o : outcome) (cs : list (ckind * outcome)) : outcome :=
+  match cs with
+  | [] => o
+  | (k, oc) :: cs' =>
+      match o with
+      | Ok v => match oc with
+                | Ok z => if check_ctr k v z then apply_ctrs (Ok v) cs' else Err Blame
+                | e => e
+                end
+      | e => e
+      end
+  end.
+
 (* record literals: field name, priority annotation, optional definition; [fdyn]: the name is
    written as an interpolated string ("%{n}" = ...), so it is not in scope of the bodies of the
    literal (free_vars.rs: rec_fields are the static fields; eval/mod.rs: "the recursive environment
    only contains the static fields, and not the dynamic fields") *)
-Record fdef : Type := { fprio : prio; fbody : option tm; fdyn : bool }.
+Record fdef : Type := { fprio : prio; fbody : option tm; fdyn : bool; fctrs : list ctr }.
 Definition literal : Type := list (N * fdef).
 Definition lit_names (l : literal) : list N := map fst l.
 Definition lit_scope (l : literal) : list N :=
